@@ -26,6 +26,8 @@ CLAIMS = {
          "AppendFloat is modelled by its rounding contract (constants computed in exact rational arithmetic); NoOpScaler's shortest formatting and the printed digits themselves are outside"),
  "C11": ("partial: the exact method. Bounded symbolic execution of the real MannWhitneyUTest/UDist on symbolic float samples: each path is one weak ordering of the pooled values (decided by float comparisons in cvc5), on which U, the one-sided p-values, the two-sided value, the unit interval, swap symmetry and PMF/CDF consistency are compared with the permutation distribution enumerated by the harness",
          "NOT covered: the normal approximation for large samples; sizes beyond the bounds; NaN inputs assumed away. Two open known findings (two-sided p-value with ties) are listed in known_findings.json and reported as KNOWN-FINDING"),
+ "C12": ("partial: the comparison-, selection- and formula-structure parts only. Bounded symbolic execution of the four t-tests on summary statistics chosen by the solver from short lists, with the t distribution function replaced by an arbitrary function into [0,1]: statistic and degrees of freedom against the textbook formulas, p-value = the requested tail at the computed statistic (two-sided twice the upper tail of |t|); undersized, zero-variance and mismatched inputs are errors for arbitrary inputs; TDist.CDF range/reflection/value at 0 with the incomplete beta function arbitrary in [0,1]; Bounds, the R8 percentile (expression-identical reference on arbitrary values at concrete p) and IQR",
+         "NOT covered (no encoding within reach, see DESIGN.md section 5): numerical accuracy of Lgamma/Erfc/Exp/Log/Pow, the continued fraction and its convergence, the normal inverse and generic bisection inverse, PDF/CDF agreement, beta symmetry, monotonicity of distribution functions, mean/variance/geometric mean of more than one symbolic value, weighted samples. The distribution function and math.Pow are environment stubs in the engine (natively the real ones run on both sides)"),
  "C13": ("bounded symbolic execution of the real benchmath assumptions on symbolic float samples: most-frequent-value centre and warnings of the exact model, order-statistic interval, median bracketing and binomial coverage of the assume-nothing model, sizes/threshold/unit-interval/reordering/rescaling/swap/exact-permutation value of comparisons, and the delta/range rendering rules on arbitrary floats (cvc5 floating-point queries)",
          "bounded by sample sizes (<= 12) and |x| <= 1e300; normal-model numerics outside; symbolic number formatting is opaque"),
  "C14": ("partial: bounded symbolic execution of the real pipeline ProjectionParser -> Filter.Apply -> benchtab.Builder.Add -> ToTables for the default flags and three variants on results whose configuration, names, file labels and units are symbolic: each filtered measurement is in exactly one cell once, two measurements share a cell exactly when unit/table/row/column keys agree, each cell's summary and comparison equal fresh calls of the unit's assumption on its sample and on the first column's cell, residue warnings appear exactly when merged results differ in an unprojected key",
@@ -45,7 +47,6 @@ CLAIMS = {
 }
 
 NA_REASONS = {
- "C12": "numerical correctness of transcendental/iterative float code (Lgamma, Erfc, continued fractions, bisection, Welford): SMT-FP has no theory for the elementary functions and the available solvers time out beyond two constant-operand float operations (DESIGN.md section 5); answered not-applicable rather than switching technique",
 }
 NA_DEFAULT = "no check registered yet: harness for this property is still under construction (see DESIGN.md section 4 for the plan)"
 
